@@ -15,7 +15,7 @@ EXPLANATION = (
     "Decided (static, MIR + the trampoline's assembly): C05.1 the value returned by the clone trampoline is examined and its failure edge leads to an Err return of spawn; "
     "C05.2 on every Err return of spawn everything acquired so far (join block, boxed closure, stack mapping, TLS block) has been released, on Ok everything was handed to the thread/handle; "
     "C05.3 the start function re-boxes the closure and calls it exactly once (not in a loop), and the trampoline has exactly one indirect call, on the child side; "
-    "C05.4 in the thread's closure the user function is called, then the result slot is written, then the hand-over flag is flipped (dominance), and only that closure writes the slot - the panic handler does not, so None <=> panicked; "
+    "C05.4 in the thread's closure the user function is called, then the result slot is written, then the hand-over flag is flipped (dominance), and only that closure writes the slot - the panic handler does not, so None <=> panicked; the thread-local block is freed only after the user's function returned (a panicking function leaves it to the panic handler, which needs it to end the thread); "
     "C05.5 join (and the handle's Drop) read/free the shared block only after observing the exit word != UNFINISHED with a load of ordering >= Acquire made after the wait returned (re-check loop); "
     "C05.6 clone flags contain VM|FS|FILES|SIGHAND|THREAD|SETTLS|CHILD_CLEARTID, the child-tid argument is the address of the exit word, the exit word starts as UNFINISHED != 0 and waits expect exactly that value, with the futex flavour of the kernel's wake; "
     "C05.7 the x86_64 trampoline (aarch64 in the thorough tier) puts syscall number, flags, new stack, child-tid and TLS in the registers the ABI wants and the start function and its argument reach the indirect call. "
